@@ -407,6 +407,22 @@ pub const OPEN: &[(&str, Fam, OpenFn)] = &[
     }),
 ];
 
+pub fn is_heavy(name: &str) -> bool {
+    weight(name) > 0
+}
+/// 0 = stack/Vec form; 1 = heap containers (mprotect per call, contends on the mmap lock);
+/// 2 = locked containers (several mlock calls per call — each drains the per-CPU LRU lists
+/// system-wide and costs milliseconds). Heavier forms run on reduced grids.
+pub fn weight(name: &str) -> u8 {
+    if name.contains("[locked") || name.contains("precalculate_locked") || name.contains("precalculate_readonly_locked") {
+        2
+    } else if name.contains("[heap") {
+        1
+    } else {
+        0
+    }
+}
+
 /// does this open form consume the precomputed key `Keys::pre` (rather than pk/sk)?
 pub fn uses_pre(name: &str) -> bool {
     name.contains("afternm") || name.contains("[given key]")
@@ -420,9 +436,168 @@ pub fn fam_name(f: Fam) -> &'static str {
     }
 }
 
+/// every encrypt form of this build: the stable list plus, in nightly builds, the heap /
+/// locked container forms
+pub fn enc_all() -> &'static [(&'static str, Fam, EncFn)] {
+    static V: std::sync::OnceLock<Vec<(&'static str, Fam, EncFn)>> = std::sync::OnceLock::new();
+    V.get_or_init(|| {
+        #[allow(unused_mut)]
+        let mut v = ENC.to_vec();
+        #[cfg(feature = "nightly")]
+        v.extend_from_slice(nightly::ENC_N);
+        v
+    })
+}
+pub fn open_all() -> &'static [(&'static str, Fam, OpenFn)] {
+    static V: std::sync::OnceLock<Vec<(&'static str, Fam, OpenFn)>> = std::sync::OnceLock::new();
+    V.get_or_init(|| {
+        #[allow(unused_mut)]
+        let mut v = OPEN.to_vec();
+        #[cfg(feature = "nightly")]
+        v.extend_from_slice(nightly::OPEN_N);
+        v
+    })
+}
 pub fn enc_by_name(n: &str) -> Option<&'static (&'static str, Fam, EncFn)> {
-    ENC.iter().find(|e| e.0 == n)
+    enc_all().iter().find(|e| e.0 == n)
 }
 pub fn open_by_name(n: &str) -> Option<&'static (&'static str, Fam, OpenFn)> {
-    OPEN.iter().find(|e| e.0 == n)
+    open_all().iter().find(|e| e.0 == n)
+}
+
+#[cfg(feature = "nightly")]
+mod nightly {
+    use super::*;
+    use dryoc::protected::*;
+    type HA<const N: usize> = HeapByteArray<N>;
+    type LKP = KeyPair<Locked<HA<32>>, Locked<HA<32>>>;
+
+    fn heap(b: &[u8]) -> HeapBytes {
+        let mut h = HeapBytes::default();
+        h.resize(b.len(), 0);
+        h.as_mut_slice().copy_from_slice(b);
+        h
+    }
+    fn lk<const N: usize>(b: &[u8; N]) -> Locked<HA<N>> {
+        HA::<N>::from_slice_into_locked(b).unwrap()
+    }
+    fn lkro<const N: usize>(b: &[u8; N]) -> LockedRO<HA<N>> {
+        HA::<N>::from_slice_into_readonly_locked(b).unwrap()
+    }
+    fn lbytes(b: &[u8]) -> Locked<HeapBytes> {
+        HeapBytes::from_slice_into_locked(b).unwrap()
+    }
+
+    pub const ENC_N: &[(&str, Fam, EncFn)] = &[
+        ("DryocSecretBox::encrypt[heap containers]", Fam::Sb, |ks, m| {
+            let b: DryocSecretBox<HA<16>, HeapBytes> = DryocSecretBox::encrypt(&heap(m), &HA::<24>::from(&ks.n), &HA::<32>::from(&ks.k));
+            b.to_bytes::<HeapBytes>().as_slice().to_vec()
+        }),
+        ("DryocSecretBox::encrypt[locked containers]", Fam::Sb, |ks, m| {
+            let b: dryoc::dryocsecretbox::protected::LockedBox = DryocSecretBox::encrypt(&lbytes(m), &lkro(&ks.n), &lk(&ks.k));
+            b.to_bytes::<Locked<HeapBytes>>().as_slice().to_vec()
+        }),
+        ("DryocBox::encrypt[heap containers]", Fam::Bx, |ks, m| {
+            let b: DryocBox<HA<32>, HA<16>, HeapBytes> = DryocBox::encrypt(&heap(m), &HA::<24>::from(&ks.n), &HA::<32>::from(&ks.pk_b), &HA::<32>::from(&ks.sk_a)).unwrap();
+            b.to_vec()
+        }),
+        ("DryocBox::encrypt[locked containers]", Fam::Bx, |ks, m| {
+            let b: dryoc::dryocbox::protected::LockedBox = DryocBox::encrypt(&lbytes(m), &lk(&ks.n), &lkro(&ks.pk_b), &lk(&ks.sk_a)).unwrap();
+            b.to_bytes::<Locked<HeapBytes>>().as_slice().to_vec()
+        }),
+        ("DryocBox::precalc_encrypt[PrecalcSecretKey::precalculate_locked]", Fam::Bx, |ks, m| {
+            let pre = PrecalcSecretKey::precalculate_locked(&ks.pk_b, &lk(&ks.sk_a)).unwrap();
+            let b: DryocBox<HA<32>, HA<16>, HeapBytes> = DryocBox::precalc_encrypt(m, &ks.n, &pre).unwrap();
+            b.to_vec()
+        }),
+        ("DryocBox::precalc_encrypt[PrecalcSecretKey::precalculate_readonly_locked]", Fam::Bx, |ks, m| {
+            let pre = PrecalcSecretKey::precalculate_readonly_locked(&ks.pk_b, &ks.sk_a).unwrap();
+            let b: dryoc::dryocbox::protected::LockedBox = DryocBox::precalc_encrypt(m, &ks.n, &pre).unwrap();
+            b.to_vec()
+        }),
+        ("DryocBox::precalc_encrypt[KeyPair::precalculate_locked]", Fam::Bx, |ks, m| {
+            let kp: LKP = KeyPair { public_key: lk(&ks.pk_a), secret_key: lk(&ks.sk_a) };
+            let pre = kp.precalculate_locked(&ks.pk_b).unwrap();
+            let b: dryoc::dryocbox::VecBox = DryocBox::precalc_encrypt_to_vecbox(m, &BN::from(&ks.n), &pre).unwrap();
+            b.to_vec()
+        }),
+        ("DryocBox::seal[heap containers]", Fam::Seal, |ks, m| {
+            with_esk(ks.esk, || {
+                let b: DryocBox<HA<32>, HA<16>, HeapBytes> = DryocBox::seal(&heap(m), &HA::<32>::from(&ks.pk_b)).unwrap();
+                b.to_vec()
+            })
+        }),
+        ("DryocBox::seal[locked containers]", Fam::Seal, |ks, m| {
+            with_esk(ks.esk, || {
+                let b: dryoc::dryocbox::protected::LockedBox = DryocBox::seal(&lbytes(m), &lk(&ks.pk_b)).unwrap();
+                b.to_vec()
+            })
+        }),
+    ];
+
+    pub const OPEN_N: &[(&str, Fam, OpenFn)] = &[
+        ("DryocSecretBox::from_bytes->decrypt[heap containers]", Fam::Sb, |ks, w, _| {
+            object(|| {
+                let b: DryocSecretBox<HA<16>, HeapBytes> = DryocSecretBox::from_bytes(w)?;
+                let o: HeapBytes = b.decrypt(&HA::<24>::from(&ks.n), &HA::<32>::from(&ks.k))?;
+                Ok(o.as_slice().to_vec())
+            })
+        }),
+        ("DryocSecretBox::from_parts->decrypt[locked containers]", Fam::Sb, |ks, w, _| {
+            if w.len() < 16 {
+                return na();
+            }
+            object(|| {
+                let b: dryoc::dryocsecretbox::protected::LockedBox = DryocSecretBox::from_parts(lk(&mac16(w)), lbytes(&w[16..]));
+                let o: Locked<HeapBytes> = b.decrypt(&lk(&ks.n), &lkro(&ks.k))?;
+                Ok(o.as_slice().to_vec())
+            })
+        }),
+        ("DryocBox::from_bytes->decrypt[heap containers]", Fam::Bx, |ks, w, _| {
+            object(|| {
+                let b: DryocBox<HA<32>, HA<16>, HeapBytes> = DryocBox::from_bytes(w)?;
+                let o: HeapBytes = b.decrypt(&HA::<24>::from(&ks.n), &HA::<32>::from(&ks.pk_a), &HA::<32>::from(&ks.sk_b))?;
+                Ok(o.as_slice().to_vec())
+            })
+        }),
+        ("DryocBox::from_parts->decrypt[locked containers]", Fam::Bx, |ks, w, _| {
+            if w.len() < 16 {
+                return na();
+            }
+            object(|| {
+                let b: dryoc::dryocbox::protected::LockedBox = DryocBox::from_parts(lk(&mac16(w)), lbytes(&w[16..]), None);
+                let o: Locked<HeapBytes> = b.decrypt(&ks.n, &lk(&ks.pk_a), &lkro(&ks.sk_b))?;
+                Ok(o.as_slice().to_vec())
+            })
+        }),
+        ("DryocBox::from_bytes->precalc_decrypt[precalculate_locked]", Fam::Bx, |ks, w, _| {
+            object(|| {
+                let b: DryocBox<HA<32>, HA<16>, HeapBytes> = DryocBox::from_bytes(w)?;
+                let pre = PrecalcSecretKey::precalculate_locked(&ks.pk_a, &ks.sk_b).map_err(dryoc::Error::from)?;
+                let o: HeapBytes = b.precalc_decrypt(&ks.n, &pre)?;
+                Ok(o.as_slice().to_vec())
+            })
+        }),
+        ("DryocBox::from_sealed_bytes->unseal[heap containers]", Fam::Seal, |ks, w, _| {
+            object(|| {
+                let b: DryocBox<HA<32>, HA<16>, HeapBytes> = DryocBox::from_sealed_bytes(w)?;
+                let kp: KeyPair<HA<32>, HA<32>> = KeyPair::from_slices(&ks.pk_b, &ks.sk_b)?;
+                let o: HeapBytes = b.unseal(&kp)?;
+                Ok(o.as_slice().to_vec())
+            })
+        }),
+        ("DryocBox::from_parts->unseal[locked containers]", Fam::Seal, |ks, w, _| {
+            if w.len() < 48 {
+                return na();
+            }
+            object(|| {
+                let epk: [u8; 32] = w[..32].try_into().unwrap();
+                let tag: [u8; 16] = w[32..48].try_into().unwrap();
+                let b: dryoc::dryocbox::protected::LockedBox = DryocBox::from_parts(lk(&tag), lbytes(&w[48..]), Some(lk(&epk)));
+                let kp: LKP = KeyPair { public_key: lk(&ks.pk_b), secret_key: lk(&ks.sk_b) };
+                let o: Locked<HeapBytes> = b.unseal(&kp)?;
+                Ok(o.as_slice().to_vec())
+            })
+        }),
+    ];
 }
